@@ -2,6 +2,7 @@ package main
 
 import (
 	"gorgonia.org/tensor"
+	"strings"
 )
 
 // Gen produces the next literal operation from the current state of the (reference) world, so that
@@ -688,6 +689,27 @@ func (g *Gen) genFamily(fam string) (Op, bool) {
 		return op, true
 
 	case "unary":
+		if !g.c18 && r.Intn(12) == 0 {
+			// softmax family (its kernels start goroutines of their own, which the scheduler of the concurrency check
+			// does not own: sequential worlds only)
+			if a := g.pick(and(isDt(floatDts...), func(t *tensor.Dense) bool { return t.Dims() > 0 })); a >= 0 {
+				t := w.get(a)
+				op := Op{Name: []string{"SoftMax", "LogSoftMax", "SoftMax", "SoftMaxB", "LogSoftMaxB"}[r.Intn(5)], In: []int{a}, N: r.Intn(t.Dims()+1) - 1, Out: g.newSlot()}
+				if strings.HasSuffix(op.Name, "B") {
+					b := g.pick(sameShapeDt(t))
+					if b < 0 {
+						b = a
+					}
+					op.In = append(op.In, b)
+				}
+				if r.Intn(3) == 0 {
+					if rr := g.pickWritable(sameShapeDt(t)); rr >= 0 && rr != a {
+						op.Mode, op.R = "reuse", rr
+					}
+				}
+				return op, true
+			}
+		}
 		a := g.pick(isDt(numericDts...))
 		if a < 0 || r.Intn(12) == 0 {
 			a = g.pick(nil)
